@@ -100,10 +100,10 @@ class Waiting(process_states.Waiting):
         try:
             self.process.ctx[key] = awaitable.result()  # type: ignore
         except Exception as exception:
-            self._waiting_future.set_exception(exception)
+            self.wake_up(exception=exception)
         else:
             if not self._awaiting:
-                self._waiting_future.set_result(lang.NULL)
+                self.wake_up(lang.NULL)
 
 
 class WorkChain(mixins.ContextMixin, processes.Process):
